@@ -214,7 +214,7 @@ theorem validate_stable4 (X : SchemaX) (o : VOpts) (hq1 : X.q.implicitInnerCase 
 theorem validate_idempotent4 (X : SchemaX) (o : VOpts) (hq1 : X.q.implicitInnerCase = false) (hq2 : X.q.autodelDirectCase = false)
     (hq3 : X.q.casesCountDefault = false)
     (hl : KidsLookupOk X) (hw : CaseWf X) (t : List DNode) (hB : NoNpContInCase X ∨ npInvL X.base t)
-    (hp : placedCL X X.top t = true) (hh : sheightL X.top ≤ walkFuel X t) (hv : (validate X o t).errs = []) :
+    (hp : placedCL X X.top t = true) (hh : sheightL X.top ≤ walkFuel X t) (hv : noDupErr (validate X o t).errs) :
     (validate X o (validate X o t).tree).tree = (validate X o t).tree ∧
     (validate X o (validate X o t).tree).evs = [] := by
   by_cases hpe : (o.present && t.isEmpty) = true
